@@ -668,7 +668,7 @@ func (propC05) Execute(pp any, x *X) *Violation {
 
 func (propC05) Describe() PropDoc {
 	return PropDoc{
-		Rule: "one run = one stored file (a valid still of any kind, an animation from the animation encoder, a muxer output with 1-12 frames, random bytes, or a 12-40 byte header with boundary values in every size field) hit by 1-4 crash-style storage faults (bit flip, byte overwrite, zeroed range, truncation, duplicated / dropped / swapped block, splice from another stored file, size-field tampering with boundary values, appended garbage; 55 % of positions biased to size fields and chunk / bitstream headers), then EVERY entry point on the result: DecodeConfig, GetFeatures, mux.NewDemuxer + Frame(i) incl. out-of-range + GetChunk + iterator, Decode (through a piecewise reader), image.Decode, animation.Decode + DecodeFramesParallel (under the drawn schedule) + DecodeFrames + NewAnimDecoder + NextFrame to the end twice with Reset. distinct = distinct corrupted byte strings (non-trivial by construction).",
+		Rule: "one run = one stored file (a valid still of any kind, an animation from the animation encoder, a muxer output with 1-12 frames, random bytes, a 12-40 byte header with boundary values in every size field, a narrow lossless picture damaged in its entropy-coded body, or a hand-crafted VP8L stream from the harness's own bit writer: 1-3 symbol prefix codes, arbitrary 2-D distance codes and lengths, colour-cache symbols, optional transforms and entropy image; about a quarter of those are valid) hit by 1-4 crash-style storage faults (bit flip, byte overwrite, zeroed range, truncation, duplicated / dropped / swapped block, splice from another stored file, size-field tampering with boundary values, appended garbage; 55 % of positions biased to size fields and chunk / bitstream headers), then EVERY entry point on the result: DecodeConfig, GetFeatures, mux.NewDemuxer + Frame(i) incl. out-of-range + GetChunk + iterator, Decode (through a piecewise reader), image.Decode, animation.Decode + DecodeFramesParallel (under the drawn schedule) + DecodeFrames + NewAnimDecoder + NextFrame to the end twice with Reset. distinct = distinct corrupted byte strings (non-trivial by construction).",
 		Assumptions: []string{
 			"memory: runtime.MemStats.TotalAlloc delta per entry point in a single-runner process, budget 8 MB + 64*len(input) + 64*(largest pixel area any header in the mutated bytes declares)",
 			"inputs declaring more than 2^22 pixels run the header-level entry points only (counted); a hang is caught by the per-run watchdog of the worker and confirmed in a fresh process",
